@@ -27,9 +27,10 @@ import (
 	"pgregory.net/rapid"
 
 	"verifharness/hx"
+	"verifharness/wire"
 )
 
-func TestMain(m *testing.M) { hx.Main(m) }
+func TestMain(m *testing.M) { wire.Init(false); hx.Main(m) }
 
 // ---------------------------------------------------------------------------
 // reference evaluation with net/netip
@@ -329,6 +330,7 @@ func TestC12AccessRulesHTTP(t *testing.T) {
 			}
 			rt := &countingRT{}
 			p := &proxy.HTTPProxy{
+				Stats:     wire.Stats(),
 				Config:    config.Proxy{},
 				Transport: rt,
 				Lookup:    lookup,
@@ -602,7 +604,7 @@ func TestC12Auth(t *testing.T) {
 		}
 		tg := targetFor(t, opts, false)
 		rt := &countingRT{}
-		p := &proxy.HTTPProxy{Transport: rt, Lookup: func(*http.Request) *route.Target { return tg }, AuthSchemes: schemes}
+		p := &proxy.HTTPProxy{Stats: wire.Stats(), Transport: rt, Lookup: func(*http.Request) *route.Target { return tg }, AuthSchemes: schemes}
 		req := httptest.NewRequest("GET", "http://example.com/x", nil)
 		req.RemoteAddr = "10.1.1.1:999"
 		user, pass, credKind := "", "", rapid.SampledFrom([]string{"right", "right", "wrongpw", "shiftedsplit", "unknownuser", "none", "malformed", "emptypw", "derivedpw"}).Draw(t, "cred")
@@ -714,7 +716,7 @@ func TestC12AuthFileHistory(t *testing.T) {
 		}
 		tg := targetFor(t, map[string]string{"auth": "b"}, false)
 		rt := &countingRT{}
-		p := &proxy.HTTPProxy{Transport: rt, Lookup: func(*http.Request) *route.Target { return tg }, AuthSchemes: schemes}
+		p := &proxy.HTTPProxy{Stats: wire.Stats(), Transport: rt, Lookup: func(*http.Request) *route.Target { return tg }, AuthSchemes: schemes}
 		try := func(u, pw string) int {
 			req := httptest.NewRequest("GET", "http://example.com/x", nil)
 			req.RemoteAddr = "10.1.1.1:999"
